@@ -56,6 +56,9 @@ private:
     stream_ptr _stream_ptr;
     stream_context_type& _stream_context;
 
+    // number of times the next layer has been replaced
+    unsigned _replace_count { 0 };
+
     log_invoke<logger_type>& _log;
 
     template <typename Owner, typename Handler>
@@ -138,6 +141,10 @@ public:
         return asio::async_initiate<CompletionToken, Signature>(
             initiation, token, std::ref(*this)
         );
+    }
+
+    unsigned replace_count() const noexcept {
+        return _replace_count;
     }
 
     bool was_connected() const {
@@ -223,6 +230,7 @@ private:
         if (_stream_ptr)
             close();
         std::exchange(_stream_ptr, std::move(sptr));
+        ++_replace_count;
     }
 
     template <typename CompletionToken>
